@@ -5,6 +5,8 @@ cd "$(dirname "$0")/../lean"
 (echo "import QR.Gen.Tables"; for f in QR/Model/*.lean QR/Spec/*.lean QR/Proofs/*.lean QR/Props/*.lean; do echo "import $(echo ${f%.lean} | tr / .)"; done) > QR.lean
 /venv/bin/python ../tools/gen_tables.py > /dev/null; /venv/bin/python ../tools/translate.py > /dev/null; lake build QR qrdrv 2>&1 | tail -1
 cd ..
+# the Gen files of the pinned tree (the build above includes every Cxx_source_fingerprints theorem, so /repo IS the pinned tree)
+if git -C /repo diff --quiet; then mkdir -p corpus/pinned_gen && cp lean/QR/Gen/Code.lean lean/QR/Gen/Tables.lean lean/QR/Gen/Fingerprints.lean corpus/pinned_gen/; fi
 python3 tools/mkmanifest.py
 python3-vt -c "
 import json,jsonschema,glob
